@@ -846,7 +846,7 @@ fn execute(ops: &[Op], hash_seed: u64, trace: Option<&mut Vec<Value>>) -> RunRes
 
 fn minimise(ops: Vec<Op>, hash_seed: u64, signature: &str) -> Vec<Op> {
   let fails = |cand: &[Op]| -> bool {
-    let r = execute(cand, hash_seed, None);
+    let r = simcore::runner::run_one(8 << 20, || execute(cand, hash_seed, None));
     r.failure.map(|f| f.signature() == signature).unwrap_or(false)
   };
   let mut cur = ops;
